@@ -33,7 +33,7 @@ def _stats(path, into):
                     into[k] = into.get(k, 0) + 1
 
 
-def _drive(ctx, binary, test, label, env, timeout=1200, tlc_timeout=1800):
+def _drive(ctx, binary, test, label, env, timeout=1200, tlc_timeout=5400):
     out = ctx.sub(label)
     rc, o = vlib.run_driver(binary, test, out, ctx.seed, env=env, timeout=timeout)
     if rc != 0:
@@ -53,6 +53,7 @@ def run(ctx):
     vlib.design_check(ctx, "SuspClock.tla", "MC_SuspClock.cfg", [], timeout=1800, workers=2, heap="2g")
     if not quick:
         vlib.design_check(ctx, "SuspClock.tla", "MC_SuspClock_two.cfg", [], timeout=3600, workers=3, heap="4g")
+        vlib.design_check(ctx, "SuspClock.tla", "MC_SuspClock_deep.cfg", [], timeout=3600, workers=3, heap="4g")
 
     # 2. the real clock and wrappers, judged by the same equations
     binary = vlib.go_build_test(ctx, "suspclock")
